@@ -42,6 +42,9 @@ const CanonicalDoc = `{"nums":[3,1,2,2,-5,10.5],"strs":["b","a","c","a","é"],` 
 	`"s":"héllo","n":-3.5,"t":true,"z":null,"e":[],"eo":{}}`
 
 func arrLen(r *Rng) int {
+	if r.Chance(1, 40) {
+		return 64 + r.Intn(340) // past the size thresholds of small-vector / big-input code paths
+	}
 	switch r.Intn(10) {
 	case 0:
 		return 0
